@@ -90,7 +90,7 @@ func (k *Keeper) SlashAssets(ctx sdk.Context, parameter *types.SlashInputInfo) (
 		SlashAssetsPool:    make([]types.SlashFromAssetsPool, 0),
 	}
 	// slash from the unbonding stakers
-	if parameter.SlashEventHeight < ctx.BlockHeight() {
+	if parameter.SlashEventHeight <= ctx.BlockHeight() {
 		// get the undelegations that are submitted after the slash.
 		opFunc := func(undelegation *delegationtype.UndelegationRecord) error {
 			slashFromUndelegation := SlashFromUndelegation(undelegation, newSlashProportion)
